@@ -90,10 +90,34 @@ class SimWorld(object):
         return ae
 
     def serve_ae(self, ae, addr):
+        """The entity's accept loop as socketserver runs it: ONE thread takes the connections
+        in the order they arrive, asks verify_request() and only then starts the per-connection
+        handler thread (ThreadingMixIn) - so whatever an entity does in verify_request happens
+        in series, as in the real server."""
+        pending = []
+        sim = self.sim
+
+        def accept_loop():
+            while True:
+                sim.wait(lambda: bool(pending), None, 'accept')
+                sock, caddr = pending.pop(0)
+                try:
+                    ok = ae.verify_request(sock, caddr)
+                except Exception:  # pylint: disable=broad-except
+                    ok = False
+                if ok:
+                    t = sim.spawn(lambda s_=sock, c_=caddr: ae.process_request_thread(s_, c_),
+                                  name='acc%d' % len(self.acceptor_tasks), role='acceptor')
+                    self.acceptor_tasks.append(t)
+                else:
+                    try:
+                        ae.shutdown_request(sock)
+                    except Exception:  # pylint: disable=broad-except
+                        pass
+        sim.spawn(accept_loop, name='accept%d' % len(self.aes), role='accept-loop')
+
         def on_conn(sock, caddr):
-            t = self.sim.spawn(lambda: ae.process_request_thread(sock, caddr),
-                               name='acc%d' % len(self.acceptor_tasks), role='acceptor')
-            self.acceptor_tasks.append(t)
+            pending.append((sock, caddr))
         self.net.listen(addr, on_conn)
 
     def serve_peer(self, addr, factory):
